@@ -158,6 +158,26 @@ CLAIMED = {
         "h: labels monotone needs dt>0 (enforced by TempoParameters)."),
 }
 
+# coverage added while testing against seeded changes (appended to the texts above)
+ADDED = {
+ "C01": " Also: tcut->dkmax (tcut_general, dkmax_tcut); ties include finite-mode baths (commensurate and incommensurate), repeated coupling eigenvalues, rotated bases, both unique settings and continued propagation.",
+ "C02": " Also tied each run: Tempo._influence is bit-exactly influence_matrix of the object's own data (wrappers regenerated: nothing kept between requests), additional correlation times that are not multiples of dt beyond the cut-off, non-smooth (pulsed) time-dependent systems, file-backed process tensors with complex transforms, final-state-only recording, long runs beyond the cut-off.",
+ "C03": " Also: initial states in every memory layout; process tensors with exactly one transform (transforms_stored_independently); mixed-key control stacks (every control acts) through C18's oracles.",
+ "C05": " Also tied: decay channels with complex Lindblad operators under complex basis changes, nearly diagonal coupling operators, PT-TEMPO on the rotated problem.",
+ "C08": " Also: which half step's parameters each half-step derivative is computed from is regenerated (derivative_rows_match); mixed parameter tables with M in {2,3}; memo-key completeness; non-Hermitian and callable targets.",
+ "C09": " Also: times handed to time-dependent dissipators (plain_dissipator_times, diss_args_current_time), default arguments regenerated (defaults_agree), stationary fields, unique=True with non-diagonal couplings, initial states in every memory layout.",
+ "C10": " Also: every gate of a layer acts on its own bond (gate_on_own_bond); a site gate applies C, not its transpose (site_gate_applies_matrix); ChainControl runs with non-symmetric maps; inspection between steps.",
+ "C11": " Also: the projection onto distinct coupling eigenvalues sums each class (unique_sums_class); repeated eigenvalues, zero and identity coupling operators; repeated compute().",
+ "C12": " Also: scale covariance in the time unit (1e-9..1e6) and coupling covariance (alpha down to 1e-6) at full relative strength (these exposed and now guard the repaired defects 68dc845, 86fb9c2); the quadrature variable and epsabs are regenerated (quadrature_variable); memo passes its arguments unchanged; cells straddling the diagonal, rectangles narrower than delta, tiling identities; Matsubara offset triangles.",
+ "C14": " Also: the rollback restores exactly the snapshot (exact flag), both memory regimes; results are read between the calls; a faulted call raises under every progress type; GibbsTempo/PtTempo repeated compute.",
+ "C15": " Also: every evaluation of a user callable at a fixed absolute time is regenerated with what is kept of it (all_probes_ok, probe_shift_invariant), including module-level probe tuples; actual->formal role binding across the parameter-guessing helpers and linspace sample times; runs far from t=0; callables whose return type changes in time; localised pulses.",
+ "C16": " Also: 'simple' import copies the raw tensors and the stored caps (import_copies_raw); process tensors with exactly one transform, user-defined caps or none; use-overwrite-export histories judged against a fresh object.",
+ "C17": " Also: the writing flag is cleared only by close() and compute_caps() keeps it (flag_cleared_only_by_close, compute_caps_keeps_flag); the reader's flag test and close()'s reset are unconditional (flag_tests_unconditional); every creating entry point x every state of the path (entry_points_no_clobber); writers of another/absent version; cap-less clean closes; interruptions by exceptions.",
+ "C18": " Also: zero steps (zero_steps); controls added after PtTebd construction act (controls_added_after_construction_act); float times of one step act in ascending time; interleaved chain stacks; controls next to process tensors; homogeneity/linearity in the control map checked as a relation between real runs.",
+ "C19": " Also: __exit__ never suppresses an exception and every failure reaches the caller (exit_never_suppresses, failure_reaches_caller); every executor is with-scoped (spawn table); schedule exploration on the real class from its own source lines; faults in parallel gate layers.",
+ "C20": " Also: caller-owned parameter tables are recognised by content, not identity (arg_store_sound); memo placement module/instance under shallow and deep copies; getters never write into stored tensors; caller arrays kept by TwoTimeBathCorrelations; arrays returned by oqupy.operators are fresh (returns_fresh).",
+}
+
 NOT_YET = "not yet built in this revision (design in DESIGN.md §4); no check is registered, nothing is claimed"
 
 def main():
@@ -174,7 +194,7 @@ def main():
                 "evidence_file": "/verif/evidence/%s.json" % pid,
                 "replay_cmd_template": "./check %s --replay {path}" % pid,
                 "engine": "lean4-proof+correspondence",
-                "level_claimed": {"category": c.get("category", "proof"), "text": c["text"],
+                "level_claimed": {"category": c.get("category", "proof"), "text": c["text"] + ADDED.get(pid, ""),
                                   "design_ref": c["ref"]},
                 "level_note": c["note"],
                 "technique": c["technique"],
